@@ -162,7 +162,9 @@ impl MultiProgress {
         };
 
         state.draw_target = ProgressDrawTarget::hidden();
-        self.state.write().unwrap().remove_idx(idx);
+        let mut multi = self.state.write().unwrap();
+        multi.remove_idx(idx);
+        let _ = multi.draw(true, None, Instant::now());
     }
 
     fn internalize(&self, location: InsertLocation, pb: ProgressBar) -> ProgressBar {
